@@ -218,7 +218,7 @@ func (b *recBlock) Get(d digest.Digest, offsetBytes, sizeBytes int64, cb buffer.
 		// and those overlap the detection.
 		cb(valid)
 		if !valid {
-			e.detections = append(e.detections, detection{b.rec, e.s.Steps})
+			e.detections = append(e.detections, detection{b.rec, e.s.Steps, e.s.Cur().ID})
 			e.c.Logf("integrity callback: block #%d invalid", b.rec.ID)
 		}
 	})
@@ -424,6 +424,7 @@ type putRec struct {
 type detection struct {
 	Block *blockRec
 	Seq   int
+	G     int // the goroutine whose read made the detection
 }
 
 type pendingGet struct {
